@@ -139,7 +139,8 @@ M('c19-name-cache-value-depends-on-request', 'C19', 'R3', 'falcon/asgi/request.p
   "            asgi_name = name.lower().encode('latin1')", "            asgi_name = (name.lower() + (default or '')).encode('latin1')", also=('C06', 'C09'))
 M2('c19-const-table-mutated-per-request', 'C19', 'R3', [
     {'file': 'falcon/asgi/app.py', 'old': "        await send(_EVT_RESP_EOF)\n",
-     'new': "        _EVT_RESP_EOF['more_body'] = False\n        await send(_EVT_RESP_EOF)\n", 'count': 2, 'occurrence': 1}])
+     'new': "        _EVT_RESP_EOF['more_body'] = False\n        await send(_EVT_RESP_EOF)\n", 'count': 2, 'occurrence': 1}],
+   also=('C05',))   # C05 R1 (wave 5): an event object handed to send() is not modified -- the shared constant is such an event
 M('c19-new-lru-cache-on-request-method', 'C19', 'R3', 'falcon/request.py',
   "    def client_accepts(self, media_type: str) -> bool:", "    @__import__('functools').lru_cache(maxsize=64)\n    def client_accepts(self, media_type: str) -> bool:")
 M('c19-memo-reads-mutable-global', 'C19', 'R3', 'falcon/util/mediatypes.py',
@@ -217,3 +218,132 @@ M('c19-compile-slice-resets-one-table', 'C19', 'R6', 'falcon/routing/compiled.py
 
         self._ast = _CxParent()
 """, also=('C01',))
+
+# ---- wave 5: the finder call looked through one same-class helper (R1 order clause, R4, R6), alias stores (R2)
+_FIND_INLINE = """        node: Optional[CompiledRouterNode] = self._find(
+            path, self._return_values, self._patterns, self._converters, params
+        )
+"""
+_STUB_TAIL = """        # NOTE(caselit): return_values, patterns, converters are reset by the _compile
+        # method, so the updated ones must be used
+        return self._find(
+            path, self._return_values, self._patterns, self._converters, params
+        )
+"""
+_HELPER_SIG = """
+    def _lookup(self, path: List[str], params: Dict[str, Any]) -> Any:
+"""
+
+
+def _helper_mutant(id, rule, body, find_call='self._lookup(path, params)', stub_call='self._lookup(path, params)', sig=_HELPER_SIG, also=()):
+    M2(id, 'C19', rule, [
+        {'file': RT, 'old': _FIND_INLINE, 'new': "        node: Optional[CompiledRouterNode] = %s\n" % find_call},
+        {'file': RT, 'old': _STUB_TAIL, 'new': "        return %s\n%s%s" % (stub_call, sig, body)}], also=also)
+
+
+# the seed: the de-duplicated helper collects the tables before it loads the finder slot
+_helper_mutant('c19-lookup-helper-tables-tuple-before-finder', 'R1',
+               "        tables = (self._return_values, self._patterns, self._converters)\n"
+               "        return self._find(path, *tables, params)\n")
+_helper_mutant('c19-lookup-helper-one-table-local-before-finder', 'R1',
+               "        converters = self._converters\n"
+               "        return self._find(path, self._return_values, self._patterns, converters, params)\n")
+_helper_mutant('c19-lookup-helper-tables-then-finder-alias', 'R1',
+               "        tables = (self._return_values, self._patterns, self._converters)\n"
+               "        find = self._find\n"
+               "        return find(path, *tables, params)\n")
+# the tables are evaluated by find() and handed to the helper, which loads the finder afterwards
+_helper_mutant('c19-lookup-helper-gets-tables-from-find', 'R1',
+               "        return self._find(path, rv, pt, cv, params)\n",
+               find_call='self._lookup(path, params, self._return_values, self._patterns, self._converters)',
+               stub_call='self._lookup(path, params, self._return_values, self._patterns, self._converters)',
+               sig="\n    def _lookup(self, path: List[str], params: Dict[str, Any], rv: Any, pt: Any, cv: Any) -> Any:\n")
+# the stub routes through the helper with the stale tables it received
+_helper_mutant('c19-lookup-helper-stub-passes-stale-tables', 'R1',
+               "        return self._find(path, rv, pt, cv, params)\n",
+               find_call='self._find(path, self._return_values, self._patterns, self._converters, params)',
+               stub_call='self._lookup(path, params, _return_values, _patterns, _converters)',
+               sig="\n    def _lookup(self, path: List[str], params: Dict[str, Any], rv: Any, pt: Any, cv: Any) -> Any:\n")
+# R4 through the helper: the helper drops the caller's params dict
+_helper_mutant('c19-lookup-helper-drops-params', 'R4',
+               "        return self._find(path, self._return_values, self._patterns, self._converters, {})\n")
+# R6 through the helper: the model still knows the tables
+M2('c19-lookup-helper-and-compile-clears-in-place', 'C19', 'R6', [
+    {'file': RT, 'old': _FIND_INLINE, 'new': "        node: Optional[CompiledRouterNode] = self._lookup(path, params)\n"},
+    {'file': RT, 'old': _STUB_TAIL, 'new': "        return self._lookup(path, params)\n" + _HELPER_SIG +
+     "        return self._find(path, self._return_values, self._patterns, self._converters, params)\n"},
+    {'file': RT, 'old': "        self._patterns = []\n        self._converters = []\n\n        self._ast = _CxParent()\n",
+     'new': "        self._patterns.clear()\n        self._converters = []\n\n        self._ast = _CxParent()\n"}], also=('C01',))
+
+# R2 (b): stores through a local alias of shared state
+MW = 'falcon/middleware.py'
+_CORS_APPROVE = """                resp.set_header('Access-Control-Allow-Methods', allow)
+                resp.set_header('Access-Control-Allow-Headers', allow_headers)
+                resp.set_header('Access-Control-Max-Age', '86400')  # 24 hours
+"""
+_CORS_INIT_TAIL = "        self.allow_credentials = allow_credentials\n\n    def process_response("
+_CORS_INIT_NEW = ("        self.allow_credentials = allow_credentials\n"
+                  "        self._preflight_headers = {'Access-Control-Max-Age': '86400'}\n\n    def process_response(")
+M2('c19-cors-fills-shared-preflight-dict-through-alias', 'C19', 'R2', [
+    {'file': MW, 'old': _CORS_INIT_TAIL, 'new': _CORS_INIT_NEW},
+    {'file': MW, 'old': _CORS_APPROVE, 'new': """                headers = self._preflight_headers
+                headers['Access-Control-Allow-Methods'] = allow
+                headers['Access-Control-Allow-Headers'] = allow_headers
+                resp.set_headers(headers)
+"""}], also=('C20',))
+M2('c19-cors-updates-shared-preflight-dict-through-alias', 'C19', 'R2', [
+    {'file': MW, 'old': _CORS_INIT_TAIL, 'new': _CORS_INIT_NEW},
+    {'file': MW, 'old': _CORS_APPROVE, 'new': """                headers = self._preflight_headers
+                if allow_headers:
+                    headers = dict(headers)
+                headers.update({'Access-Control-Allow-Methods': allow, 'Access-Control-Allow-Headers': allow_headers})
+                resp.set_headers(headers)
+"""}], also=('C20',))
+M2('c19-cors-alias-of-alias-setdefault', 'C19', 'R2', [
+    {'file': MW, 'old': _CORS_INIT_TAIL, 'new': _CORS_INIT_NEW},
+    {'file': MW, 'old': _CORS_APPROVE, 'new': """                cached = self._preflight_headers
+                headers = cached
+                headers.setdefault('Access-Control-Allow-Methods', allow)
+                headers.setdefault('Access-Control-Allow-Headers', allow_headers)
+                resp.set_headers(headers)
+"""}], also=('C20',))
+M('c19-get-responder-records-path-through-alias', 'C19', 'R2', 'falcon/app.py',
+  """        path = req.path
+        method = 'WEBSOCKET' if req.is_websocket else req.method
+""", """        path = req.path
+        seen = self._static_routes
+        seen.append(path)
+        method = 'WEBSOCKET' if req.is_websocket else req.method
+""")
+M('c19-static-route-alias-attribute-store', 'C19', 'R2', 'falcon/routing/static.py',
+  """        assert not kw
+        if req.method == 'OPTIONS':""", """        assert not kw
+        me = self
+        stats = me._prefix if False else self.__dict__
+        stats['last_path'] = req.path
+        if req.method == 'OPTIONS':""")
+# R2 (a): a second shipped middleware class is on the request path without being listed
+M('c19-new-shipped-middleware-counts-requests', 'C19', 'R2', MW,
+  "class CORSMiddleware(object):", """class RequestIDMiddleware:
+    def __init__(self) -> None:
+        self._ids: dict = {}
+
+    def process_request(self, req: Request, resp: Response) -> None:
+        self._current = req.get_header('X-Request-ID')
+
+    def process_response(self, req: Request, resp: Response, resource: object, req_succeeded: bool) -> None:
+        resp.set_header('X-Request-ID', self._current)
+
+
+class CORSMiddleware(object):""")
+M('c19-new-shipped-middleware-ws-alias-store', 'C19', 'R2', MW,
+  "class CORSMiddleware(object):", """class WSAuditMiddleware:
+    def __init__(self) -> None:
+        self._open: dict = {}
+
+    async def process_request_ws(self, req: Request, ws: Any) -> None:
+        table = self._open
+        table[req.path] = ws
+
+
+class CORSMiddleware(object):""")
